@@ -1,8 +1,27 @@
-"""C09 - a failed pooled connection is discarded and pool capacity is conserved (work in progress)."""
+"""C09 - a failed pooled connection is discarded and pool capacity is conserved.
+
+ObjectPool.get / release / destroy / clear are executed symbolically from the real source over deques of
+symbolic length (array + length; A-deque) with wf(pool) = duplicate-free, disjoint used/free, |used|+|free| <=
+max_size, every listed object live (created, never closed):
+  get      wf preserved; the result is appended to used and was not checked out; it is either the first non-expired
+           free object (reuse of a healthy connection) or a fresh one after *every* free object turned out idle-expired;
+           each expired object was passed to after_remove once and is not reused; RuntimeError only when used is full
+           and nothing is reusable                       (while/else loop invariant over the popped prefix)
+  release  obj in used => moved to the tail of free; otherwise silent no-op
+  destroy  obj in used => removed, after_remove(obj) once, outside the lock; otherwise silent no-op
+  clear    both deques emptied and every object closed exactly once, outside the lock
+Every PooledClient method, with ObjectPool.get_and_release inlined (single-yield context manager) and get / release /
+destroy by contract: on every Exception-class exit and every normal exit the slot is given back; a failed call's
+client is destroyed and closed exactly once and is not in free; with ignore_exc a swallowed failure puts the client
+back but its socket was closed by the inner Client (C01/C06), so the failed connection is never used again; a
+healthy client returns to free unclosed; quit() always destroys.
+"""
 from . import poolmodel as pm
 
-TRUSTED = []
-ASSUMPTIONS = []
+TRUSTED = ["A-deque (append / popleft / remove first occurrence / clear)", "contextlib.contextmanager semantics of a single-yield generator",
+           "inner Client contract: a raising call leaves that client's socket closed and dropped (C01, C06)", "monotone ghost clock"]
+ASSUMPTIONS = ["after_remove is Client.close (never raises; C06) or None", "the lock provides mutual exclusion (see C08); this property is sequential"]
+NOT_COVERED = ["exits by non-Exception BaseException (C10)", "FIFO order of the free list beyond 'first non-expired object is reused'"]
 BUDGET = {"quick": 30, "thorough": 120}
 REPLAY_UNDECIDED = True
 FILTER_BY_PROPERTY = True
